@@ -1,3 +1,688 @@
-import GoStd.Bytes
+/-
+C17 — Header-name spelling and the layout of multi-valued routing headers do not matter.
+
+"The proxy's behaviour does not depend on how header names are spelled or how multi-valued routing
+headers are laid out: replacing any header name by its compact form or by another letter case, or
+splitting a comma-separated Via or Route header into several header lines (or joining them), changes
+neither the destination nor the content of what is relayed, apart from those spellings and layouts
+themselves."
+
+Model: every header-list operation of `Sip.Message` looks at names only through
+`isSameHeader cm <wire name> <constant of the code>`; `Proxy.step` is the per-message pipeline.
+
+A. RE-SPELLING (complete, for `Proxy.step` and every function below it, for ANY compact map).
+   `Lemmas.Respelled cm P h h'`: same value, and for every lookup key in `P` the two names are in the
+   class of the key or both are not. `P` = `Lemmas.PipeClasses`, the eleven keys the pipeline uses.
+   `C17_respell_step`: two receive events whose messages are re-spellings of one another (everything
+   else equal) lead to EQUAL states and to outputs with the same destinations, whose payloads are the
+   serialisations of re-spelled messages — equal byte strings up to the spelling of header names
+   (`C17_respell_bytes`, `Lemmas.BytesRespelled`). `C17_respell_run`: the same for event sequences.
+   Concrete spellings: another letter case is a re-spelling for every map (`C17_letter_case`); full
+   name ↔ compact form is one provided the classes of the eleven keys are pairwise disjoint
+   (`Lemmas.SaneFor`, `C17_compact_form`), which holds for the generated table (`C17_real_table`) and
+   cannot be dropped (`C17_sanity_needed`).
+   ASYMMETRY: `isSameHeader cm a b` looks up the compact form of `b` only, so it is not symmetric for
+   arbitrary maps, nor for tables in which two names share a compact form
+   (`C17_isSameHeader_asymmetric`); the code always passes the wire name first and its own constant
+   second and all statements are about that usage. For the generated table the relation happens to be
+   symmetric (`C17_isSameHeader_symmetric_real`).
+
+B. RE-LAYOUT. `ParseVia`/`ParseRoute` distribute over comma-joining (`C17_parse_join`), hence the Via,
+   Route and Record-Route stacks of a header list do not change when `name: a,b` is replaced by
+   `name: a`, `name: b` (`C17_stack_split`) — PROVIDED both parts decode: otherwise the joined header
+   is lost as a whole while the separate lines keep their decodable part (`C17_split_fail`, a real
+   difference). The routing decisions are functions of the stacks as soon as every header of the class
+   decodes (`Lemmas.ViaOK`, `Lemmas.RouteOK`): `C17_response_of_stack`, `C17_request_of_stack`; hence
+   `C17_relayout_response` / `C17_relayout_request`: two messages with the same Via (Route) stack —
+   in particular two layouts of the same entries — get the same hop and the same resulting stack
+   from `getNextResponseHop ∘ popVia` resp. `getNextRequestHopByRoute`.
+   THE WHOLE PIPELINE (`C17_relayout_step`, `C17_relayout_content`, `C17_relayout_run`): `Lemmas.LR cm m m'`
+   = both messages well formed (`ViaOK`, `RouteOK`) with the same `Lemmas.lview` (start line, body, Via /
+   Route / Record-Route stacks, and ALL headers outside these three classes with names, values and order:
+   `Lemmas.restOf`). For a table with pairwise disjoint key classes (`Lemmas.AllDisj`, from `SaneFor`;
+   true of the generated table) two events with `LR`-related messages give EQUAL states, the same
+   destinations, and payloads that serialise `LR`-related messages: same start line, body, stacks and other
+   headers.
+   Splitting / joining one Via, Route or Record-Route header gives `LR`-related messages
+   (`C17_split_is_relayout`). Both lifts (A3 and this one) are instances of one generic lift
+   (`Lemmas.PipeRel`, `Lemmas.step_rel`).
+-/
+import Lemmas.Spell
+import Lemmas.SpellPipe
+import Lemmas.Layout
+import Lemmas.PipeRel
+import Lemmas.LayoutPipe
+import Props.C02
+import Props.C13
+open GoStd Sip Proxy Lemmas
+
 namespace Props.C17
+
+/-! ## A. re-spelling -/
+
+/-! ### A1. every header-list operation (selection; the full list is in `Lemmas.Spell`) -/
+
+/-- The typed getters, `popVia`/`popRoute`, `addVia`, `addRecordRoute`, `setReceived`, the dialog and
+transaction identifiers and `Expires` on re-spelled messages: equal results, re-spelled messages. -/
+theorem C17_operations (cm : List (Bytes × Bytes)) (m m' : Message) (H : MsgRespelled cm PipeClasses m m') :
+    GR cm PipeClasses (getVia cm m) (getVia cm m') ∧ GR cm PipeClasses (getRoute cm m) (getRoute cm m') ∧
+    GR cm PipeClasses (getFrom cm m) (getFrom cm m') ∧ GR cm PipeClasses (getTo cm m) (getTo cm m') ∧
+    GR cm PipeClasses (getCSeq cm m) (getCSeq cm m') ∧ GR cm PipeClasses (getMethod cm m) (getMethod cm m') ∧
+    OR cm PipeClasses (popVia cm m) (popVia cm m') ∧ OR cm PipeClasses (popRoute cm m) (popRoute cm m') ∧
+    (∀ vp, MsgRespelled cm PipeClasses (addVia cm m vp) (addVia cm m' vp)) ∧
+    (∀ rr, MsgRespelled cm PipeClasses (addRecordRoute cm m rr) (addRecordRoute cm m' rr)) ∧
+    (∀ ip port, MsgRespelled cm PipeClasses (setReceived cm m ip port) (setReceived cm m' ip port)) ∧
+    PR cm PipeClasses (getDialog cm m) (getDialog cm m') ∧
+    PR cm PipeClasses (getClientTransaction cm m) (getClientTransaction cm m') ∧
+    (∀ d, getExpires cm m d = getExpires cm m' d) ∧
+    findRecordRoutePos cm m.headers = findRecordRoutePos cm m'.headers ∧
+    (forEachViaHeaders cm m.headers).2 = (forEachViaHeaders cm m'.headers).2 :=
+  ⟨getVia_respelled cm _ H pc_via, getRoute_respelled cm _ H pc_route, getFrom_respelledMsg cm _ H pc_from,
+   getTo_respelledMsg cm _ H pc_to, getCSeq_respelled cm _ H pc_cseq, getMethod_respelled cm _ H pc_cseq,
+   popVia_respelled cm _ H pc_via, popRoute_respelled cm _ H pc_route,
+   fun vp => addVia_respelled cm _ H pc_via vp,
+   fun rr => addRecordRoute_respelled cm _ H pc_recordRoute pc_from pc_maxForwards rr,
+   fun ip port => setReceived_respelled cm _ H pc_via ip port,
+   getDialog_respelled cm _ H pc_callId pc_from pc_to,
+   getClientTransaction_respelled cm _ H pc_cseq pc_via,
+   fun d => getExpires_respelled cm _ H pc_expires d,
+   findRecordRoutePos_respelled cm _ H.headers pc_recordRoute pc_from pc_maxForwards,
+   (forEachViaHeaders_respelled cm _ H.headers pc_via).2⟩
+
+/-- The value `ParseMessage` reads to frame the body (`getHeaderInt … "Content-Length"`) is the same,
+however the Content-Length header is spelled (`l`, `CONTENT-LENGTH`, …). -/
+theorem C17_framing (cm : List (Bytes × Bytes)) (m m' : Message) (H : MsgRespelled cm PipeClasses m m') :
+    getHeaderInt cm m contentLengthName = getHeaderInt cm m' contentLengthName :=
+  getHeaderInt_respelled cm _ H pc_contentLength
+
+/-! ### A2. the serialiser -/
+
+/-- `Message.bytes` of re-spelled messages: the same header positions are skipped as Content-Length,
+the printed values are literally equal, the printed names are position-wise in the same classes, and
+the byte strings are: a common prefix (start line), header lines that are re-spellings of one
+another, a common suffix (generated Content-Length, blank line, body). -/
+theorem C17_bytes (cm : List (Bytes × Bytes)) (m m' : Message) (H : MsgRespelled cm PipeClasses m m') :
+    m.headers.map (fun h => isSameHeader cm h.name contentLengthName) =
+      m'.headers.map (fun h => isSameHeader cm h.name contentLengthName) ∧
+    (printed cm m.headers).map (fun h => h.value.encode) = (printed cm m'.headers).map (fun h => h.value.encode) ∧
+    RespelledList cm PipeClasses (printed cm m.headers) (printed cm m'.headers) ∧
+    BytesRespelled cm PipeClasses (m.bytes cm) (m'.bytes cm) :=
+  ⟨skipped_respelled cm _ H.headers pc_contentLength, printed_values_eq cm _ H.headers pc_contentLength,
+   printed_respelled cm _ H.headers pc_contentLength, bytes_respelled cm _ H pc_contentLength⟩
+
+/-! ### A3. the pipeline -/
+
+/-- One received message: events that differ only by a re-spelling of header names give EQUAL states,
+the same destinations (constructor and address of every output, in order), and payloads that are
+serialisations of re-spelled messages. -/
+theorem C17_respell_step (cfg : Cfg) (st : St) (ev ev' : RawEv) (E : EvRespelled cfg ev ev') :
+    (step cfg st ev).1 = (step cfg st ev').1 ∧
+    (step cfg st ev).2.map Out.dest = (step cfg st ev').2.map Out.dest ∧
+    OutsRel cfg (step cfg st ev).2 (step cfg st ev').2 :=
+  let h := step_respelled cfg E st
+  ⟨h.1, h.2.dest_eq, h.2⟩
+
+/-- … and the payloads are equal up to the spelling of the header names: position by position, a
+common prefix, re-spelled header lines, a common suffix. -/
+theorem C17_respell_bytes (cfg : Cfg) (st : St) (ev ev' : RawEv) (E : EvRespelled cfg ev ev')
+    (i : Nat) (o o' : Out) (ho : (step cfg st ev).2[i]? = some o) (ho' : (step cfg st ev').2[i]? = some o') :
+    o.dest = o'.dest ∧ BytesRespelled cfg.cm PipeClasses o.data o'.data :=
+  let h := (step_respelled cfg E st).2.get i o o' ho ho'
+  ⟨h.1, dataRel_bytes h.2⟩
+
+/-- the stages, for reference: each maps re-spelled inputs to equal states / hops and re-spelled messages -/
+theorem C17_respell_stages (cfg : Cfg) (st : St) (ev ev' : RawEv) (E : EvRespelled cfg ev ev')
+    (m m' : Message) (H : MR cfg m m') :
+    TR cfg (handleRawMessage cfg st ev) (handleRawMessage cfg st ev') ∧
+    TR cfg (handleDialog cfg st ev.peerAddr ev.peerPort m) (handleDialog cfg st ev.peerAddr ev.peerPort m') ∧
+    TR cfg (getNextRequestHop cfg m) (getNextRequestHop cfg m') ∧
+    TR cfg (getNextResponseHop cfg m) (getNextResponseHop cfg m') ∧
+    (∀ br, SR cfg (sendToBackend cfg st m br) (sendToBackend cfg st m' br)) ∧
+    (∀ h, SR cfg (sendMessage cfg st h m) (sendMessage cfg st h m')) ∧
+    SR cfg (handleMessage cfg st ev m) (handleMessage cfg st ev' m') :=
+  ⟨handleRawMessage_respelled cfg E st, handleDialog_respelled cfg H st _ _, getNextRequestHop_respelled cfg H,
+   getNextResponseHop_respelled cfg H, fun br => sendToBackend_respelled cfg H st br,
+   fun h => sendMessage_respelled cfg H st h, handleMessage_respelled cfg E H st⟩
+
+/-- a sequence of received messages through the loop (membership events in between change the state
+in the same way on both sides; `C17_respell_step` holds from every state) -/
+def runSteps (cfg : Cfg) : St → List RawEv → St × List Out
+  | st, [] => (st, [])
+  | st, ev :: evs => ((runSteps cfg (step cfg st ev).1 evs).1, (step cfg st ev).2 ++ (runSteps cfg (step cfg st ev).1 evs).2)
+
+inductive EvsRespelled (cfg : Cfg) : List RawEv → List RawEv → Prop where
+  | nil : EvsRespelled cfg [] []
+  | cons {e e' : RawEv} {l l' : List RawEv} : EvRespelled cfg e e' → EvsRespelled cfg l l' → EvsRespelled cfg (e :: l) (e' :: l')
+
+theorem C17_respell_run (cfg : Cfg) (st : St) (evs evs' : List RawEv) (E : EvsRespelled cfg evs evs') :
+    (runSteps cfg st evs).1 = (runSteps cfg st evs').1 ∧
+    (runSteps cfg st evs).2.map Out.dest = (runSteps cfg st evs').2.map Out.dest ∧
+    OutsRel cfg (runSteps cfg st evs).2 (runSteps cfg st evs').2 := by
+  suffices h : SR cfg (runSteps cfg st evs) (runSteps cfg st evs') from ⟨h.1, h.2.dest_eq, h.2⟩
+  induction E generalizing st with
+  | nil => exact ⟨rfl, .nil⟩
+  | @cons e e' l l' he _ ih =>
+    obtain ⟨h1, h2⟩ := step_respelled cfg he st
+    simp only [runSteps]
+    rw [← h1]
+    exact ⟨(ih (step cfg st e).1).1, h2.append (ih (step cfg st e).1).2⟩
+
+/-! ### A4. concrete spellings -/
+
+/-- Another letter case is a re-spelling, whatever the compact map. -/
+theorem C17_letter_case (cm : List (Bytes × Bytes)) (n n' : Bytes) (v : HVal) (h : toLower n = toLower n') :
+    Respelled cm PipeClasses { name := n, value := v } { name := n', value := v } :=
+  respelled_of_toLower cm PipeClasses _ _ rfl h
+
+/-- What "compact form" means to the code, in the direction it is used: a wire name that is (any
+letter case of) the compact form the table has for the key is in the class of the key. -/
+theorem C17_compact_is_same (cm : List (Bytes × Bytes)) (n key c : Bytes)
+    (hc : getCompact cm key = some c) (h : equalFold n c = true) : isSameHeader cm n key = true :=
+  isSameHeader_of_compact cm hc h
+
+/-- Full name ↔ compact form (any letter case on either side) is a re-spelling for every table in
+which the classes of the pipeline's keys are pairwise disjoint. -/
+theorem C17_compact_form (cm : List (Bytes × Bytes)) (hs : SaneFor cm pipeKeys) (key c : Bytes) (hk : PipeClasses key)
+    (hc : getCompact cm key = some c) (n n' : Bytes) (hn : equalFold n key = true) (hn' : equalFold n' c = true)
+    (v : HVal) :
+    Respelled cm PipeClasses { name := n, value := v } { name := n', value := v } ∧
+    Respelled cm PipeClasses { name := n', value := v } { name := n, value := v } :=
+  ⟨respelled_compact cm hs hk hc hn hn' v, (respelled_compact cm hs hk hc hn hn' v).symm⟩
+
+/-- The generated table is such a table; its compact forms for the pipeline's keys are `v`, `f`, `t`,
+`i`, `l`; any two wire names of one class are re-spellings of one another, and so are any two names
+outside all eleven classes. -/
+theorem C17_real_table :
+    SaneFor realCm pipeKeys ∧
+    getCompact realCm viaName = some (str "v") ∧ getCompact realCm fromName = some (str "f") ∧
+    getCompact realCm toName = some (str "t") ∧ getCompact realCm callIdName = some (str "i") ∧
+    getCompact realCm contentLengthName = some (str "l") ∧
+    (∀ key n n' v, PipeClasses key → isSameHeader realCm n key = true → isSameHeader realCm n' key = true →
+      Respelled realCm PipeClasses { name := n, value := v } { name := n', value := v }) ∧
+    (∀ n n' v, (∀ key ∈ pipeKeys, isSameHeader realCm n key = false) →
+      (∀ key ∈ pipeKeys, isSameHeader realCm n' key = false) →
+      Respelled realCm PipeClasses { name := n, value := v } { name := n', value := v }) :=
+  ⟨real_sane, real_compacts.1, real_compacts.2.1, real_compacts.2.2.1, real_compacts.2.2.2.1,
+   real_compacts.2.2.2.2.1, fun _ _ _ v hk h h' => real_respelled hk h h' v,
+   fun _ _ v h h' => respelled_of_noClass realCm h h' v⟩
+
+/-- Disjointness cannot be dropped: with `v` the compact form of both Via and Expires, `Via` → `v` is
+not a re-spelling, and `getExpires` tells the two messages apart. -/
+theorem C17_sanity_needed :
+    ¬ SaneFor clashCm pipeKeys ∧
+    (∀ x, ¬ Respelled clashCm PipeClasses { name := str "Via", value := x } { name := str "v", value := x }) ∧
+    (let m : Message := { start := .status [] 200 [], headers := [{ name := str "Via", value := .raw (str "7") }], body := [] }
+     let m' : Message := { start := .status [] 200 [], headers := [{ name := str "v", value := .raw (str "7") }], body := [] }
+     getExpires clashCm m 0 = 0 ∧ getExpires clashCm m' 0 = 7) :=
+  ⟨clash_not_sane, clash_not_respelled, clash_observable⟩
+
+/-- `isSameHeader` is not symmetric: the compact form is looked up for the second argument only. -/
+theorem C17_isSameHeader_asymmetric :
+    (isSameHeader [(str "via", str "v")] (str "v") (str "Via") = true ∧
+     isSameHeader [(str "via", str "v")] (str "Via") (str "v") = false) ∧
+    (isSameHeader clashCm (str "v") (str "Via") = true ∧ isSameHeader clashCm (str "Via") (str "v") = false) :=
+  ⟨isSameHeader_asymm_map, isSameHeader_asymm_table⟩
+
+/-- … but it is for the generated table. -/
+theorem C17_isSameHeader_symmetric_real (a b : Bytes) : isSameHeader realCm a b = isSameHeader realCm b a := by
+  cases h : isSameHeader realCm a b with
+  | true => exact (real_isSameHeader_symm a b h).symm
+  | false =>
+    cases h' : isSameHeader realCm b a with
+    | false => rfl
+    | true => rw [real_isSameHeader_symm b a h'] at h; cases h
+
+/-! ## B. re-layout -/
+
+/-- B5. `ParseVia` / `ParseRoute` distribute over comma-joining; for Via also over `", "`. -/
+theorem C17_parse_join (a b : Bytes) :
+    parseVia (a ++ [44] ++ b) = (do let x ← parseVia a; let y ← parseVia b; pure (x ++ y)) ∧
+    parseRoute (a ++ [44] ++ b) = (do let x ← parseRoute a; let y ← parseRoute b; pure (x ++ y)) ∧
+    parseVia (a ++ [44, 32] ++ b) = (do let x ← parseVia a; let y ← parseVia b; pure (x ++ y)) :=
+  ⟨parseVia_join a b, parseRoute_join a b, parseVia_join_blank a b⟩
+
+/-- The three stacks do not see whether `name: a,b` is one header or two consecutive ones, provided
+both parts decode (names: three of the class, any spelling). -/
+theorem C17_stack_split (cm : List (Bytes × Bytes)) (pre post : List Header) (nm nm₁ nm₂ a b : Bytes) :
+    (∀ x y, parseVia a = some x → parseVia b = some y →
+      isSameHeader cm nm₁ viaName = isSameHeader cm nm viaName →
+      isSameHeader cm nm₂ viaName = isSameHeader cm nm viaName →
+      viaStack cm (pre ++ { name := nm, value := .raw (a ++ [44] ++ b) } :: post) =
+        viaStack cm (pre ++ { name := nm₁, value := .raw a } :: { name := nm₂, value := .raw b } :: post)) ∧
+    (∀ x y, parseRoute a = some x → parseRoute b = some y →
+      isSameHeader cm nm₁ routeName = isSameHeader cm nm routeName →
+      isSameHeader cm nm₂ routeName = isSameHeader cm nm routeName →
+      routeStack cm (pre ++ { name := nm, value := .raw (a ++ [44] ++ b) } :: post) =
+        routeStack cm (pre ++ { name := nm₁, value := .raw a } :: { name := nm₂, value := .raw b } :: post)) ∧
+    (∀ x y, parseRoute a = some x → parseRoute b = some y →
+      isSameHeader cm nm₁ recordRouteName = isSameHeader cm nm recordRouteName →
+      isSameHeader cm nm₂ recordRouteName = isSameHeader cm nm recordRouteName →
+      rrStack cm (pre ++ { name := nm, value := .raw (a ++ [44] ++ b) } :: post) =
+        rrStack cm (pre ++ { name := nm₁, value := .raw a } :: { name := nm₂, value := .raw b } :: post)) :=
+  ⟨fun _ _ ha hb c₁ c₂ => viaStack_split cm pre post nm nm₁ nm₂ a b ha hb c₁ c₂,
+   fun _ _ ha hb c₁ c₂ => routeStack_split cm pre post nm nm₁ nm₂ a b ha hb c₁ c₂,
+   fun _ _ ha hb c₁ c₂ => rrStack_split cm pre post nm nm₁ nm₂ a b ha hb c₁ c₂⟩
+
+/-- Otherwise the layouts DO differ: the joined header does not decode at all and contributes nothing,
+the separate lines contribute what decodes. Concretely `Via: <b>,junk` against `Via: <b>` / `Via: junk`:
+empty stack and failing `getVia` against the entry `b`. -/
+theorem C17_split_fail (cm : List (Bytes × Bytes)) (pre post : List Header) (nm nm₁ nm₂ a b : Bytes)
+    (h : parseVia a = none ∨ parseVia b = none)
+    (c : isSameHeader cm nm viaName = true) (c₁ : isSameHeader cm nm₁ viaName = true)
+    (c₂ : isSameHeader cm nm₂ viaName = true) :
+    viaStack cm (pre ++ { name := nm, value := .raw (a ++ [44] ++ b) } :: post) =
+      viaStack cm pre ++ viaStack cm post ∧
+    viaStack cm (pre ++ { name := nm₁, value := .raw a } :: { name := nm₂, value := .raw b } :: post) =
+      viaStack cm pre ++ ((parseVia a).getD [] ++ ((parseVia b).getD [] ++ viaStack cm post)) :=
+  viaStack_split_fail cm pre post nm nm₁ nm₂ a b h c c₁ c₂
+
+theorem C17_split_fail_example :
+    viaStack realCm [{ name := str "Via", value := .raw (exViaB ++ [44] ++ str "junk") }] = [] ∧
+    (viaStack realCm [{ name := str "Via", value := .raw exViaB }, { name := str "Via", value := .raw (str "junk") }]).map
+      (·.host) = [str "b"] :=
+  split_fail_differs
+
+/-! ### B6. the decisions read the stacks through their heads -/
+
+open Props.C02 Props.C13
+
+/-- the hop is that of the first entry `getVia` returns (`C02_hop`, `C02_hop_none`) -/
+theorem response_hop_eq (cfg : Cfg) (m : Message) :
+    (getNextResponseHop cfg m).1 = ((getVia cfg.cm m).bind (fun p => p.1.head?)).map responseHopOf := by
+  cases hg : getVia cfg.cm m with
+  | none =>
+    rw [C02_hop_none cfg m (by intro vp rest m1 h; rw [hg] at h; cases h)]; rfl
+  | some p =>
+    obtain ⟨v, m1⟩ := p
+    cases v with
+    | nil => rw [C02_hop_none cfg m (by intro vp rest m1 h; rw [hg] at h; cases h)]; rfl
+    | cons vp rest => rw [C02_hop cfg m m1 vp rest hg]; rfl
+
+/-- where a Route entry points -/
+def routeHopOf (rp : RouteParam) : Option Hop :=
+  match rp.nameAddr.addr with
+  | .sip u => some { host := u.host, port := u.getPort, transport := u.getTransport }
+  | .abs _ => none
+
+/-- the hop is that of the first entry `getRoute` returns (`C13_hop`, `C13_hop_abs`, `C13_hop_none`) -/
+theorem request_hop_eq (cfg : Cfg) (m : Message) :
+    (getNextRequestHopByRoute cfg m).1 = ((getRoute cfg.cm m).bind (fun p => p.1.head?)).bind routeHopOf := by
+  cases hg : getRoute cfg.cm m with
+  | none => rw [C13_hop_none cfg m hg]; rfl
+  | some p =>
+    obtain ⟨r, m1⟩ := p
+    cases r with
+    | nil => simp [getNextRequestHopByRoute, hg]
+    | cons rp rest =>
+      cases hu : rp.nameAddr.addr with
+      | sip u => rw [(C13_hop cfg m m1 rp rest u hg hu).1]; simp [routeHopOf, hu]
+      | abs s => rw [C13_hop_abs cfg m m1 rp rest s hg hu]; simp [routeHopOf, hu]
+
+/-- A response whose Via headers all decode: after the pop the hop is that of the SECOND entry of the
+Via stack and the stack has lost exactly its head — both are functions of the stack alone. -/
+theorem C17_response_of_stack (cfg : Cfg) (m : Message) (hok : ViaOK cfg.cm m.headers) :
+    (getNextResponseHop cfg ((popVia cfg.cm m).getD m)).1 =
+      (viaStack cfg.cm m.headers).tail.head?.map responseHopOf ∧
+    viaStack cfg.cm (getNextResponseHop cfg ((popVia cfg.cm m).getD m)).2.headers =
+      (viaStack cfg.cm m.headers).tail := by
+  cases hp : popVia cfg.cm m with
+  | none =>
+    have h0 := popVia_none_of_viaOK cfg.cm hok hp
+    simp only [Option.getD_none]
+    rw [response_hop_eq, getVia_head_of_viaOK cfg.cm hok, C02_hop_stack, h0]
+    exact ⟨rfl, rfl⟩
+  | some m1 =>
+    obtain ⟨hok1, h1⟩ := popVia_of_viaOK cfg.cm hok hp
+    simp only [Option.getD_some]
+    rw [response_hop_eq, getVia_head_of_viaOK cfg.cm hok1, C02_hop_stack, h1]
+    exact ⟨rfl, rfl⟩
+
+/-- Two responses with the same Via stack — in particular the same entries laid out differently over
+header lines — go to the same hop with the same remaining stack. -/
+theorem C17_relayout_response (cfg : Cfg) (m m' : Message)
+    (hok : ViaOK cfg.cm m.headers) (hok' : ViaOK cfg.cm m'.headers)
+    (hst : viaStack cfg.cm m.headers = viaStack cfg.cm m'.headers) :
+    (getNextResponseHop cfg ((popVia cfg.cm m).getD m)).1 = (getNextResponseHop cfg ((popVia cfg.cm m').getD m')).1 ∧
+    viaStack cfg.cm (getNextResponseHop cfg ((popVia cfg.cm m).getD m)).2.headers =
+      viaStack cfg.cm (getNextResponseHop cfg ((popVia cfg.cm m').getD m')).2.headers := by
+  obtain ⟨a1, a2⟩ := C17_response_of_stack cfg m hok
+  obtain ⟨b1, b2⟩ := C17_response_of_stack cfg m' hok'
+  rw [a1, a2, b1, b2, hst]
+  exact ⟨rfl, rfl⟩
+
+/-- the split / join instance: `Via: a,b` against `Via: a`, `Via: b` -/
+theorem C17_relayout_response_split (cfg : Cfg) (sl : StartLine) (body : Bytes) (pre post : List Header)
+    (nm nm₁ nm₂ a b : Bytes) (x y : List ViaParam) (ha : parseVia a = some x) (hb : parseVia b = some y)
+    (c : isSameHeader cfg.cm nm viaName = true) (c₁ : isSameHeader cfg.cm nm₁ viaName = true)
+    (c₂ : isSameHeader cfg.cm nm₂ viaName = true)
+    (hok : ViaOK cfg.cm (pre ++ post)) :
+    let m : Message := { start := sl, body := body,
+                         headers := pre ++ { name := nm, value := .raw (a ++ [44] ++ b) } :: post }
+    let m' : Message := { start := sl, body := body,
+                          headers := pre ++ { name := nm₁, value := .raw a } :: { name := nm₂, value := .raw b } :: post }
+    (getNextResponseHop cfg ((popVia cfg.cm m).getD m)).1 = (getNextResponseHop cfg ((popVia cfg.cm m').getD m')).1 ∧
+    viaStack cfg.cm (getNextResponseHop cfg ((popVia cfg.cm m).getD m)).2.headers =
+      viaStack cfg.cm (getNextResponseHop cfg ((popVia cfg.cm m').getD m')).2.headers := by
+  intro m m'
+  have hokJ : ViaOK cfg.cm m.headers := by
+    intro h hm hc
+    simp only [m, List.mem_append, List.mem_cons] at hm
+    rcases hm with hm | rfl | hm
+    · exact hok h (by simp [hm]) hc
+    · exact Or.inr ⟨_, _, rfl, parseVia_join_some ha hb⟩
+    · exact hok h (by simp [hm]) hc
+  exact C17_relayout_response cfg m m' hokJ (viaOK_split cfg.cm pre post nm nm₁ nm₂ a b ha hb hokJ)
+    (viaStack_split cfg.cm pre post nm nm₁ nm₂ a b ha hb (by rw [c₁, c]) (by rw [c₂, c]))
+
+/-- A request whose Route headers all decode: the hop is that of the head of the Route stack and the
+stack is kept or loses exactly its head — functions of the stack (and the configuration) alone. -/
+theorem C17_request_of_stack (cfg : Cfg) (m : Message) (hok : RouteOK cfg.cm m.headers) :
+    (getNextRequestHopByRoute cfg m).1 = (routeStack cfg.cm m.headers).head?.bind routeHopOf ∧
+    routeStack cfg.cm (getNextRequestHopByRoute cfg m).2.headers =
+      if cfg.keepNextHopRoute then routeStack cfg.cm m.headers else (routeStack cfg.cm m.headers).tail := by
+  refine ⟨by rw [request_hop_eq, getRoute_head_of_routeOK cfg.cm hok], ?_⟩
+  cases hk : cfg.keepNextHopRoute with
+  | true => simp only [↓reduceIte]; exact C13_keep cfg m hk
+  | false =>
+    simp only [Bool.false_eq_true, ↓reduceIte]
+    rw [C13_strip cfg m hk]
+    rcases getRoute_of_routeOK cfg.cm hok with ⟨h1, h2⟩ | ⟨rp, r, m1, rest, h1, _⟩
+    · rw [h1, h2]; rfl
+    · rw [h1]
+
+/-- Two requests with the same Route stack — in particular the same entries laid out differently — get
+the same next hop from their Route headers and the same remaining Route stack. -/
+theorem C17_relayout_request (cfg : Cfg) (m m' : Message)
+    (hok : RouteOK cfg.cm m.headers) (hok' : RouteOK cfg.cm m'.headers)
+    (hst : routeStack cfg.cm m.headers = routeStack cfg.cm m'.headers) :
+    (getNextRequestHopByRoute cfg m).1 = (getNextRequestHopByRoute cfg m').1 ∧
+    routeStack cfg.cm (getNextRequestHopByRoute cfg m).2.headers =
+      routeStack cfg.cm (getNextRequestHopByRoute cfg m').2.headers := by
+  obtain ⟨a1, a2⟩ := C17_request_of_stack cfg m hok
+  obtain ⟨b1, b2⟩ := C17_request_of_stack cfg m' hok'
+  rw [a1, a2, b1, b2, hst]
+  exact ⟨rfl, rfl⟩
+
+theorem C17_relayout_request_split (cfg : Cfg) (sl : StartLine) (body : Bytes) (pre post : List Header)
+    (nm nm₁ nm₂ a b : Bytes) (x y : List RouteParam) (ha : parseRoute a = some x) (hb : parseRoute b = some y)
+    (c : isSameHeader cfg.cm nm routeName = true) (c₁ : isSameHeader cfg.cm nm₁ routeName = true)
+    (c₂ : isSameHeader cfg.cm nm₂ routeName = true)
+    (hok : RouteOK cfg.cm (pre ++ post)) :
+    let m : Message := { start := sl, body := body,
+                         headers := pre ++ { name := nm, value := .raw (a ++ [44] ++ b) } :: post }
+    let m' : Message := { start := sl, body := body,
+                          headers := pre ++ { name := nm₁, value := .raw a } :: { name := nm₂, value := .raw b } :: post }
+    (getNextRequestHopByRoute cfg m).1 = (getNextRequestHopByRoute cfg m').1 ∧
+    routeStack cfg.cm (getNextRequestHopByRoute cfg m).2.headers =
+      routeStack cfg.cm (getNextRequestHopByRoute cfg m').2.headers := by
+  intro m m'
+  have hokJ : RouteOK cfg.cm m.headers := by
+    intro h hm hc
+    simp only [m, List.mem_append, List.mem_cons] at hm
+    rcases hm with hm | rfl | hm
+    · exact hok h (by simp [hm]) hc
+    · exact Or.inr ⟨_, _, rfl, parseRoute_join_some ha hb⟩
+    · exact hok h (by simp [hm]) hc
+  exact C17_relayout_request cfg m m' hokJ (routeOK_split cfg.cm pre post nm nm₁ nm₂ a b ha hb hokJ)
+    (routeStack_split cfg.cm pre post nm nm₁ nm₂ a b ha hb (by rw [c₁, c]) (by rw [c₂, c]))
+
+/-- The routes a request teaches the proxy (stage 1 of `handleRawMessage`) are a function of the Via
+stack too: `ForEachVia` collects exactly the stack. -/
+theorem C17_relayout_learn (cfg : Cfg) (st : St) (ev : RawEv) (m' : Message)
+    (hsl : ev.msg.start = m'.start) (hst : viaStack cfg.cm ev.msg.headers = viaStack cfg.cm m'.headers) :
+    (rawLearn cfg st ev).1 = (rawLearn cfg st { ev with msg := m' }).1 := by
+  unfold rawLearn
+  have hr : isRequest ev.msg = isRequest m' := by unfold isRequest; rw [hsl]
+  simp only [← hr]
+  split
+  · have h1 := forEachViaHeaders_vias cfg.cm ev.msg.headers
+    have h2 := forEachViaHeaders_vias cfg.cm m'.headers
+    revert h1 h2
+    rcases forEachViaHeaders cfg.cm ev.msg.headers with ⟨hs, vs⟩
+    rcases forEachViaHeaders cfg.cm m'.headers with ⟨hs', vs'⟩
+    intro h1 h2
+    simp only at h1 h2 ⊢
+    rw [h1, h2, hst]
+  · rfl
+
+/-! ### B7. re-layout through the whole pipeline -/
+
+/-- One received message in two layouts (`LR`: well formed, same `lview`), table with pairwise disjoint
+key classes: EQUAL states, the same destinations in the same order, payloads that serialise `LR`-related
+messages. -/
+theorem C17_relayout_step (cfg : Cfg) (hD : AllDisj cfg.cm) (st : St) (ev ev' : RawEv)
+    (E : EvRel (LR cfg.cm) ev ev') :
+    (step cfg st ev).1 = (step cfg st ev').1 ∧
+    (step cfg st ev).2.map Out.dest = (step cfg st ev').2.map Out.dest ∧
+    OutsRelG (LR cfg.cm) cfg (step cfg st ev).2 (step cfg st ev').2 :=
+  let h := step_layout cfg hD E st
+  ⟨h.1, h.2.dest_eq, h.2⟩
+
+/-- … what is relayed has the same content apart from the layout: the i-th packets go to the same place
+and serialise messages with the same start line, body, Via stack, Route stack, Record-Route stack and the
+same list of all other headers (`restOf`: every header outside the three routing classes — name, value,
+order). Only the grouping of the routing entries into header lines, and where these lines stand among the
+others, may differ. -/
+theorem C17_relayout_content (cfg : Cfg) (hD : AllDisj cfg.cm) (st : St) (ev ev' : RawEv)
+    (E : EvRel (LR cfg.cm) ev ev') (i : Nat) (o o' : Out)
+    (ho : (step cfg st ev).2[i]? = some o) (ho' : (step cfg st ev').2[i]? = some o') :
+    o.dest = o'.dest ∧ ∃ m m', o.data = m.bytes cfg.cm ∧ o'.data = m'.bytes cfg.cm ∧
+      m.start = m'.start ∧ m.body = m'.body ∧
+      viaStack cfg.cm m.headers = viaStack cfg.cm m'.headers ∧
+      routeStack cfg.cm m.headers = routeStack cfg.cm m'.headers ∧
+      rrStack cfg.cm m.headers = rrStack cfg.cm m'.headers ∧
+      restOf cfg.cm m.headers = restOf cfg.cm m'.headers ∧ lview cfg.cm m = lview cfg.cm m' := by
+  obtain ⟨hd, m, m', h1, h2, H⟩ := (step_layout cfg hD E st).2.get i o o' ho ho'
+  exact ⟨hd, m, m', h1, h2, congrArg LView.start H.2.2, congrArg LView.body H.2.2, congrArg LView.via H.2.2,
+    congrArg LView.route H.2.2, congrArg LView.rr H.2.2, congrArg LView.rest H.2.2, H.2.2⟩
+
+inductive EvsRelayout (cm : List (Bytes × Bytes)) : List RawEv → List RawEv → Prop where
+  | nil : EvsRelayout cm [] []
+  | cons {e e' : RawEv} {l l' : List RawEv} : EvRel (LR cm) e e' → EvsRelayout cm l l' → EvsRelayout cm (e :: l) (e' :: l')
+
+/-- … and the same for a sequence of received messages -/
+theorem C17_relayout_run (cfg : Cfg) (hD : AllDisj cfg.cm) (st : St) (evs evs' : List RawEv)
+    (E : EvsRelayout cfg.cm evs evs') :
+    (runSteps cfg st evs).1 = (runSteps cfg st evs').1 ∧
+    (runSteps cfg st evs).2.map Out.dest = (runSteps cfg st evs').2.map Out.dest := by
+  suffices h : SRG (LR cfg.cm) cfg (runSteps cfg st evs) (runSteps cfg st evs') from ⟨h.1, h.2.dest_eq⟩
+  induction E generalizing st with
+  | nil => exact ⟨rfl, .nil⟩
+  | @cons e e' l l' he _ ih =>
+    obtain ⟨h1, h2⟩ := step_layout cfg hD he st
+    simp only [runSteps]
+    rw [← h1]
+    exact ⟨(ih (step cfg st e).1).1, h2.append (ih (step cfg st e).1).2⟩
+
+/-- Splitting `name: a,b` into `name: a`, `name: b` (or joining them) — for a Via, a Route or a
+Record-Route header, any spellings of the class, both parts decodable, in a well-formed message — gives
+`LR`-related messages; `LR` is symmetric and transitive, so any number of splits and joins does. -/
+theorem C17_split_is_relayout (cm : List (Bytes × Bytes)) (hD : AllDisj cm) (sl : StartLine) (body : Bytes)
+    (pre post : List Header) (nm nm₁ nm₂ a b : Bytes)
+    (hok : LOK cm { start := sl, headers := pre ++ { name := nm, value := .raw (a ++ [44] ++ b) } :: post, body := body }) :
+    let mJ : Message := { start := sl, headers := pre ++ { name := nm, value := .raw (a ++ [44] ++ b) } :: post, body := body }
+    let mS : Message := { start := sl, body := body,
+                          headers := pre ++ { name := nm₁, value := .raw a } :: { name := nm₂, value := .raw b } :: post }
+    (∀ x y, parseVia a = some x → parseVia b = some y → isSameHeader cm nm viaName = true →
+      isSameHeader cm nm₁ viaName = true → isSameHeader cm nm₂ viaName = true → LR cm mJ mS ∧ LR cm mS mJ) ∧
+    (∀ x y, parseRoute a = some x → parseRoute b = some y → isSameHeader cm nm routeName = true →
+      isSameHeader cm nm₁ routeName = true → isSameHeader cm nm₂ routeName = true → LR cm mJ mS ∧ LR cm mS mJ) ∧
+    (∀ x y, parseRoute a = some x → parseRoute b = some y → isSameHeader cm nm recordRouteName = true →
+      isSameHeader cm nm₁ recordRouteName = true → isSameHeader cm nm₂ recordRouteName = true →
+      LR cm mJ mS ∧ LR cm mS mJ) := by
+  intro mJ mS
+  refine ⟨fun _ _ ha hb c c₁ c₂ => ?_, fun _ _ ha hb c c₁ c₂ => ?_, fun _ _ ha hb c c₁ c₂ => ?_⟩
+  · have h := lr_split_via hD sl body pre post nm nm₁ nm₂ a b ha hb c c₁ c₂ hok
+    exact ⟨h, h.symm⟩
+  · have h := lr_split_route hD sl body pre post nm nm₁ nm₂ a b ha hb c c₁ c₂ hok
+    exact ⟨h, h.symm⟩
+  · have h := lr_split_rr hD sl body pre post nm nm₁ nm₂ a b ha hb c c₁ c₂ hok
+    exact ⟨h, h.symm⟩
+
+/-- the hypothesis on the table: from sanity; true of the generated table -/
+theorem C17_allDisj : (∀ cm, SaneFor cm pipeKeys → AllDisj cm) ∧ AllDisj realCm :=
+  ⟨allDisj_of_sane, real_allDisj⟩
+
+/-! ## non-vacuity
+
+Fixtures: `Lemmas.exMsg` / `Lemmas.exMsgSp` (a request and its re-spelling `To→t, v→Via, Route→ROUTE,
+Record-Route→record-route, VIA→V, f→From, Call-ID→i, CSeq→cseq`), `Lemmas.exResp` / `Lemmas.exRespSp`
+(a response), configuration `Lemmas.exCfg` with the generated table. -/
+
+section Examples
+
+/-- hypotheses of `C17_operations`, `C17_bytes` -/
+example := C17_operations realCm exMsg exMsgSp exMsg_respelled
+example := C17_bytes realCm exMsg exMsgSp exMsg_respelled
+example := C17_framing realCm exMsg exMsgSp exMsg_respelled
+
+/-- hypotheses of `C17_respell_step`, `C17_respell_stages`: a relayed request, a relayed response -/
+example := C17_respell_step exCfg exSt _ _ exEv_respelled_req
+example := C17_respell_step exCfg exSt _ _ exEv_respelled_resp
+example := C17_respell_stages exCfg exSt _ _ exEv_respelled_req exResp exRespSp exResp_MR
+
+/-- hypotheses of `C17_respell_bytes`: each event yields one packet; the two packets of
+the request pair go to the same place and are different byte strings -/
+example : ∃ o o', (step exCfg exSt (exEv exMsg)).2[0]? = some o ∧ (step exCfg exSt (exEv exMsgSp)).2[0]? = some o' ∧
+    o.dest = o'.dest ∧ BytesRespelled exCfg.cm PipeClasses o.data o'.data ∧ o.data ≠ o'.data := by
+  have hl : (step exCfg exSt (exEv exMsg)).2.length = 1 ∧ (step exCfg exSt (exEv exMsgSp)).2.length = 1 ∧
+      (step exCfg exSt (exEv exMsg)).2.map Out.data ≠ (step exCfg exSt (exEv exMsgSp)).2.map Out.data := by
+    decide +kernel
+  obtain ⟨h1, h2, h3⟩ := hl
+  cases ha : (step exCfg exSt (exEv exMsg)).2 with
+  | nil => rw [ha] at h1; cases h1
+  | cons o l =>
+    cases hb : (step exCfg exSt (exEv exMsgSp)).2 with
+    | nil => rw [hb] at h2; cases h2
+    | cons o' l' =>
+      have hr := C17_respell_bytes exCfg exSt _ _ exEv_respelled_req 0 o o' (by rw [ha]; rfl) (by rw [hb]; rfl)
+      refine ⟨o, o', rfl, rfl, hr.1, hr.2, ?_⟩
+      rw [ha, hb] at h3
+      rw [hb] at h2
+      cases l with
+      | nil =>
+        cases l' with
+        | nil => intro e; exact h3 (by simp [e])
+        | cons _ _ => simp at h2
+      | cons _ _ => rw [ha] at h1; simp at h1
+
+/-- hypothesis of `C17_respell_run`: the request followed by the response -/
+example := C17_respell_run exCfg exSt [exEv exMsg, exEv exResp] [exEv exMsgSp, exEv exRespSp]
+  (.cons exEv_respelled_req (.cons exEv_respelled_resp .nil))
+
+example : (runSteps exCfg exSt [exEv exMsgSp, exEv exRespSp]).2.length = 2 := by decide +kernel
+
+/-- hypotheses of `C17_letter_case`, `C17_compact_is_same`, `C17_compact_form` -/
+example (v : HVal) := C17_letter_case realCm (str "VIA") (str "via") v (by decide +kernel)
+example := C17_compact_is_same realCm (str "V") viaName (str "v") real_compacts.1 (by decide +kernel)
+example (v : HVal) := C17_compact_form realCm real_sane fromName (str "f") pc_from real_compacts.2.1
+  (str "FROM") (str "F") (by decide +kernel) (by decide +kernel) v
+
+/-! re-layout: `exResp` has the Via headers `own` and `a, b`; against it the same response with three
+Via lines `own`, `a`, `b` (any spelling of the name) -/
+
+def viaOwn : Bytes := str "SIP/2.0/UDP 10.0.0.1:5060;branch=z9hG4bKabc"
+def viaA : Bytes := str "SIP/2.0/UDP a:5070;received=10.0.0.7;rport=4444;branch=z1"
+def viaB : Bytes := str "SIP/2.0/TCP b"
+def exPre : List Header := [{ name := str "Via", value := .raw viaOwn }]
+def exPost : List Header := [{ name := str "CSeq", value := .raw (str "1 INVITE") }]
+
+theorem via_parts : ∃ x y, parseVia viaA = some x ∧ parseVia viaB = some y := by
+  obtain ⟨x, hx⟩ := Option.isSome_iff_exists.mp (show (parseVia viaA).isSome = true by decide +kernel)
+  obtain ⟨y, hy⟩ := Option.isSome_iff_exists.mp (show (parseVia viaB).isSome = true by decide +kernel)
+  exact ⟨x, y, hx, hy⟩
+
+theorem exPrePost_viaOK : ViaOK exCfg.cm (exPre ++ exPost) := by
+  intro h hm hc
+  simp only [exPre, exPost, List.cons_append, List.nil_append, List.mem_cons, List.not_mem_nil, or_false] at hm
+  rcases hm with rfl | rfl
+  · obtain ⟨v, hv⟩ := Option.isSome_iff_exists.mp (show (parseVia viaOwn).isSome = true by decide +kernel)
+    exact Or.inr ⟨_, v, rfl, hv⟩
+  · exfalso; revert hc; decide +kernel
+
+/-- hypotheses of `C17_relayout_response_split` (hence of `C17_relayout_response`, `C17_response_of_stack`,
+`C17_stack_split`): `v: a,b` against `Via: a`, `VIA: b` behind the proxy's own Via -/
+example :=
+  let ⟨x, y, hx, hy⟩ := via_parts
+  C17_relayout_response_split exCfg (.status (str "SIP/2.0") 200 (str "OK")) [] exPre exPost
+    (str "v") (str "Via") (str "VIA") viaA viaB x y hx hy (by decide +kernel) (by decide +kernel) (by decide +kernel)
+    exPrePost_viaOK
+
+/-- … and there the common hop exists: it is the `received`/`rport` address of entry `a` -/
+example :
+    (getNextResponseHop exCfg ((popVia exCfg.cm
+      { start := .status (str "SIP/2.0") 200 (str "OK"), body := [],
+        headers := exPre ++ { name := str "Via", value := .raw viaA } :: { name := str "VIA", value := .raw viaB } :: exPost }).getD
+      exResp)).1 = some { host := str "10.0.0.7", port := 4444, transport := str "UDP" } := by decide +kernel
+
+/-- the Route side: `Route: p1,p2` against `Route: p1`, `ROUTE: p2` in front of the example request -/
+theorem route_parts : ∃ x y, parseRoute exRouteA = some x ∧ parseRoute exRouteB = some y := exRoute_parts
+
+theorem exMsgNoRoute_routeOK : RouteOK exCfg.cm ([] ++ exMsgNoRoute.headers) := by
+  intro h hm hc
+  exfalso
+  have : ∀ x ∈ exMsgNoRoute.headers, isSameHeader realCm x.name routeName = false := by decide +kernel
+  have hc' : isSameHeader realCm h.name routeName = true := hc
+  rw [this h (by simpa using hm)] at hc'
+  cases hc'
+
+/-- hypotheses of `C17_relayout_request_split` (hence of `C17_relayout_request`, `C17_request_of_stack`) -/
+example :=
+  let ⟨x, y, hx, hy⟩ := route_parts
+  C17_relayout_request_split exCfg exMsg.start [] [] exMsgNoRoute.headers
+    (str "Route") (str "Route") (str "ROUTE") exRouteA exRouteB x y hx hy
+    (by decide +kernel) (by decide +kernel) (by decide +kernel) exMsgNoRoute_routeOK
+
+/-- … the common hop is `p1` and one entry (`p2`) remains (keep-next-hop-route is off in `exCfg`) -/
+example :
+    let m : Message := { exMsg with headers := { name := str "Route", value := .raw exRouteA } ::
+                                      { name := str "ROUTE", value := .raw exRouteB } :: exMsgNoRoute.headers }
+    (getNextRequestHopByRoute exCfg m).1 = some { host := str "p1", port := 5060, transport := str "udp" } ∧
+    (routeStack exCfg.cm (getNextRequestHopByRoute exCfg m).2.headers).length = 1 := by decide +kernel
+
+/-- hypotheses of `C17_relayout_learn`: same start line, same Via stack (by `viaStack_split`) -/
+example :=
+  let ⟨x, y, hx, hy⟩ := via_parts
+  C17_relayout_learn exCfg exSt
+    (exEv { exMsg with headers := exPre ++ ({ name := str "v", value := .raw (viaA ++ [44] ++ viaB) } : Header) :: exPost })
+    { exMsg with headers := exPre ++ ({ name := str "Via", value := .raw viaA } : Header) ::
+                              ({ name := str "VIA", value := .raw viaB } : Header) :: exPost }
+    rfl (viaStack_split exCfg.cm exPre exPost (str "v") (str "Via") (str "VIA") viaA viaB hx hy
+      (by decide +kernel) (by decide +kernel))
+
+/-- hypotheses of `C17_split_fail` -/
+example := C17_split_fail realCm [] [] (str "Via") (str "Via") (str "Via") exViaB (str "junk")
+  (Or.inr (by decide +kernel)) (by decide +kernel) (by decide +kernel) (by decide +kernel)
+
+/-- hypotheses of `C17_relayout_step`, `C17_relayout_content`, `C17_relayout_run`, `C17_split_is_relayout`:
+the response `own / a,b` against `own / a / b`, the request `Route: p1,p2` against `Route: p1 / ROUTE: p2`
+(fixtures of `Lemmas.LayoutPipe`; both layouts are really relayed, one packet each, with different bytes) -/
+theorem lyEv_resp : EvRel (LR exCfg.cm) (exEv lyRespJ) (exEv lyRespS) := EvRel.of_msg (exEv lyRespJ) lyResp_LR
+theorem lyEv_req : EvRel (LR exCfg.cm) (exEv lyReqJ) (exEv lyReqS) := EvRel.of_msg (exEv lyReqJ) lyReq_LR
+
+example := C17_relayout_step exCfg real_allDisj exSt _ _ lyEv_resp
+example := C17_relayout_step exCfg real_allDisj exSt _ _ lyEv_req
+example := C17_relayout_run exCfg real_allDisj exSt [exEv lyReqJ, exEv lyRespJ] [exEv lyReqS, exEv lyRespS]
+  (.cons lyEv_req (.cons lyEv_resp .nil))
+
+example : ∃ o o', (step exCfg exSt (exEv lyRespJ)).2[0]? = some o ∧ (step exCfg exSt (exEv lyRespS)).2[0]? = some o' ∧
+    o ≠ o' := by
+  have hl : (step exCfg exSt (exEv lyRespJ)).2.length = 1 ∧ (step exCfg exSt (exEv lyRespS)).2.length = 1 ∧
+      (step exCfg exSt (exEv lyRespJ)).2[0]? ≠ (step exCfg exSt (exEv lyRespS)).2[0]? := by decide +kernel
+  obtain ⟨h1, h2, h3⟩ := hl
+  cases ha : (step exCfg exSt (exEv lyRespJ)).2[0]? with
+  | none => rw [List.getElem?_eq_none_iff] at ha; omega
+  | some o =>
+    cases hb : (step exCfg exSt (exEv lyRespS)).2[0]? with
+    | none => rw [List.getElem?_eq_none_iff] at hb; omega
+    | some o' =>
+      rw [ha, hb] at h3
+      exact ⟨o, o', rfl, rfl, fun e => h3 (by rw [e])⟩
+
+example := C17_split_is_relayout realCm real_allDisj (.status (str "SIP/2.0") 200 (str "OK")) [] lyPre lyPost
+  (str "v") (str "Via") (str "VIA") lyA lyB
+  ⟨viaOK_of_check realCm (by decide +kernel), routeOK_of_check realCm (by decide +kernel)⟩
+
+end Examples
+
 end Props.C17
